@@ -12,32 +12,11 @@
 //   reset tempty                 default-constructed igris::ring<int> (only resize may follow)
 // one-line cases (round 3): reset widths | reset premain | reset hist <size> <script> |
 //   reset histt <n> <script> | reset longrun <size> <n> | reset sizezero <what> | reset movedpush <n>
-// Translation units: C03.cpp (this file: run), C03_life.cpp (lifeprobe / lifecount), C03_gen.cpp (gen).
+// Translation units: see C03_common.h.
 // Result line = "<ret> <state…>" (state = every counter the API reports).
 // Oracle = a std::deque / std::vector mirror maintained by the harness only
 // from the operations' arguments and the documented contract.
-#include "common/hv.h"
-#include <deque>
-#include <memory>
-#include <climits>
-#include <cstring>
-#include <map>
-#include <type_traits>
-#include <igris/datastruct/ring.h>
-#include <igris/datastruct/ring_counter.h>
-#include <igris/container/ring.h>
-#include <igris/container/cyclic_buffer.h>
-#include <igris/datastruct/bytering.h>
-#include <igris/container/array_view.h>
-
-using namespace hv;
-typedef std::vector<uint8_t> bytes;
-
-static_assert(sizeof(int) == 4 && sizeof(unsigned) == 4 && sizeof(size_t) == 8, "LP64");
-static_assert(CHAR_MIN < 0, "char is signed on this platform");
-
-static int64_t emod(int64_t a, int64_t m) { return ((a % m) + m) % m; }
-static std::string S(int64_t v) { return std::to_string(v); }
+#include "C03_common.h"
 
 // ===================================================================== C ring
 struct CRing
@@ -334,453 +313,16 @@ static void run_cring(const std::vector<std::string> &w, out &o)
     o.result = ret + " " + cring_state(r);
 }
 
-// ================================================================== typed ring
-template <class T> struct TR
-{
-    std::unique_ptr<igris::ring<T>> t;
-    std::deque<T> q;
-    static constexpr bool is_char = sizeof(T) == 1;
-
-    std::string state()
-    {
-        auto &x = *t;
-        return S(x.head_index()) + " " + S(x.tail_index()) + " " + S(x.avail()) + " " + S(x.room()) + " " +
-               S(x.size()) + " " + S(x.empty() ? 1 : 0) + " " + S(x.buffer.size());
-    }
-    void resync()
-    {
-        auto &x = *t;
-        q.clear();
-        uint64_t size = x.r.size;
-        if (!size || x.r.head >= size || x.r.tail >= size || x.buffer.size() < size) return;
-        for (uint64_t i = x.r.tail; i != x.r.head; i = (i + 1) % size) q.push_back(x.buffer[i]);
-    }
-    void check(out &o)
-    {
-        auto &x = *t;
-        uint64_t size = x.r.size;
-        if (x.buffer.size() < size)
-            o.fail("ring size " + S(size) + " exceeds its buffer of " + S(x.buffer.size()) + " elements");
-        if (!(x.r.head < size)) o.fail("head outside [0,size)");
-        if (!(x.r.tail < size)) o.fail("tail outside [0,size)");
-        if ((uint64_t)x.avail() + x.room() != size - 1) o.fail("avail+room != size-1");
-        if (x.avail() != q.size()) o.fail("avail " + S(x.avail()) + " != reference " + S(q.size()));
-        if (x.empty() != q.empty()) o.fail("empty() disagrees with reference");
-        if (x.r.head < x.r.tail) o.tag("wrapped");
-        if (size & (size - 1)) o.tag("nonpow2");
-        if (x.r.head == 0) o.tag("head0");
-        // stored elements = reference queue, in order
-        if (x.buffer.size() >= size && x.r.tail < size && x.avail() == q.size())
-        {
-            uint64_t i = x.r.tail;
-            for (size_t k = 0; k < q.size(); k++, i = (i + 1) % size)
-                if (x.buffer[i] != q[k]) { o.fail("stored element " + S(k) + " differs from reference"); break; }
-        }
-    }
-    void run(const std::vector<std::string> &w, out &o)
-    {
-        auto &x = *t;
-        const std::string &op = w[0];
-        int64_t size = x.r.size;
-        std::string ret = "-";
-        if (op == "push" || op == "emplace")
-        {
-            T v = (T)strtol(w[1].c_str(), 0, 10);
-            bool full = (int64_t)q.size() == size - 1;
-            if (op == "push") x.push(v); else x.emplace(v);
-            if (full) { resync(); o.tag("overmove"); } else q.push_back(v);
-        }
-        else if (op == "pop")
-        {
-            bool empty = q.empty();
-            x.pop();
-            if (empty) { resync(); o.tag("overmove"); } else q.pop_front();
-        }
-        else if (op == "pushfull" || op == "popempty")
-        { // the property's clause "a full ring rejects writes / an empty ring rejects reads without
-          // changing state", judged on push()/pop() of the typed ring (recorded finding: they do not test)
-            unsigned h0 = x.r.head, t0 = x.r.tail, a0 = x.avail();
-            if (op == "pushfull") x.push((T)strtol(w[1].c_str(), 0, 10)); else x.pop();
-            bool applies = op == "pushfull" ? (int64_t)q.size() == size - 1 : q.empty();
-            if (applies && (x.r.head != h0 || x.r.tail != t0 || x.avail() != a0))
-                o.fail(op == "pushfull" ? "push on a full ring was not rejected: " + S(a0) + " stored elements became " + S(x.avail())
-                                        : "pop on an empty ring was not rejected: avail became " + S(x.avail()));
-            else if (!applies) { if (op == "pushfull") q.push_back((T)strtol(w[1].c_str(), 0, 10)); else q.pop_front(); }
-            if (applies) { resync(); o.tag("overmove"); }
-        }
-        else if (op == "pushalias")
-        { // the argument aliases the slot that push() constructs into
-            bool full = (int64_t)q.size() == size - 1;
-            T v = x.head_place();
-            x.push(x.head_place());
-            if (full) { resync(); o.tag("overmove"); } else q.push_back(v);
-            o.tag("alias");
-        }
-        else if (op == "clear") { x.clear(); q.clear(); if (!x.empty()) o.fail("not empty after clear"); }
-        else if (op == "mh1") { x.move_head_one(); resync(); }
-        else if (op == "mt1") { x.move_tail_one(); resync(); }
-        else if (op == "rst")
-        {
-            x.reset(); q.clear();
-            if (x.size() != x.buffer.size()) o.fail("reset: ring size != buffer size");
-        }
-        else if (op == "resize")
-        {
-            size_t n = strtoul(w[1].c_str(), 0, 10);
-            x.resize(n); q.clear();
-            if (x.room() != n) o.fail("resize(" + S(n) + "): room " + S(x.room()));
-        }
-        else if (op == "tail")
-        {
-            T &e = x.tail();
-            ret = S((int)e) + "@" + S(x.index_of(&e));
-            if (x.index_of(&e) != (int)x.r.tail) o.fail("tail() addresses slot " + S(x.index_of(&e)));
-            if (!q.empty() && e != q.front()) o.fail("tail() is not the oldest element");
-        }
-        else if (op == "last")
-        {
-            T &e = x.last();
-            int idx = x.index_of(&e);
-            ret = S((int)e) + "@" + S(idx);
-            if (idx != emod((int64_t)x.r.head - 1, size))
-                o.fail("last() addresses slot " + S(idx) + " at head " + S(x.r.head) + " size " + S(size));
-            else if (!q.empty() && e != q.back()) o.fail("last() is not the newest element");
-        }
-        else if (op == "headplace") ret = S((int)x.head_place());
-        else if (op == "get") ret = S((int)x.get((int)strtol(w[1].c_str(), 0, 10)));
-        else if (op == "getlast")
-        {
-            int off = (int)strtol(w[1].c_str(), 0, 10), cnt = (int)strtol(w[2].c_str(), 0, 10);
-            bool fe = w[3] == "1";
-            std::vector<T> v = x.get_last(off, cnt, fe);
-            ret = "";
-            for (int i = 0; i < cnt; i++) ret += (i ? "," : "") + S((int)v[i]);
-            if (cnt == 0) ret = "-";
-            for (int i = 0; i < cnt; i++)
-            {
-                int64_t back = fe ? (int64_t)off + i : (int64_t)off + cnt - 1 - i; // 0 = newest
-                int64_t slot = emod((int64_t)x.r.head - 1 - back, size);
-                if (v[i] != x.buffer[slot])
-                    o.fail("get_last element " + S(i) + " is not slot " + S(slot));
-                else if (back >= 0 && back < (int64_t)q.size() && v[i] != q[q.size() - 1 - back])
-                    o.fail("get_last element " + S(i) + " is not the " + S(back) + "-th previous element");
-            }
-            if (off + cnt > (int64_t)x.r.head) o.tag("getlast-wrap");
-        }
-        else if (op == "fixup")
-        {
-            int i = (int)strtol(w[1].c_str(), 0, 10);
-            int v = x.fixup_index(i);
-            ret = S(v);
-            if (v != emod(i, size)) o.fail("fixup_index(" + S(i) + ") = " + S(v) + " for size " + S(size));
-            if (i < 0) o.tag("fix-neg");
-        }
-        else if (op == "distance")
-        {
-            int a = (int)strtol(w[1].c_str(), 0, 10), b = (int)strtol(w[2].c_str(), 0, 10);
-            int v = x.distance(a, b);
-            ret = S(v);
-            if (v != emod((int64_t)a - b, size)) o.fail("distance(" + S(a) + "," + S(b) + ") = " + S(v));
-            if (a < b) o.tag("distance-wrap");
-        }
-        else if (op == "setlast")
-        {
-            int i = (int)strtol(w[1].c_str(), 0, 10);
-            x.set_last_index(i);
-            if ((int64_t)x.r.head != emod((int64_t)i + 1, size)) o.fail("set_last_index: head " + S(x.r.head));
-            resync();
-        }
-        else if (op == "settail")
-        { // `r` is a public member ("direct control"): place the tail, e.g. next to an index-width boundary
-            x.r.tail = (unsigned)strtoul(w[1].c_str(), 0, 10);
-            resync();
-        }
-        else if (op == "fillbuf")
-        { // the buffer is public too: slot i := i + 1, so that a store to a wrong slot is visible
-            for (size_t i = 0; i < x.buffer.size(); i++) x.buffer[i] = (T)(i + 1);
-            resync();
-        }
-        else if (op == "copy")
-        { // implicit copy constructor; the original is destroyed, the copy carries on
-            std::unique_ptr<igris::ring<T>> c(new igris::ring<T>(x));
-            if (c->buffer.data() == x.buffer.data()) o.fail("copy shares the storage");
-            t = std::move(c);
-            o.tag("copy");
-        }
-        else if (op == "assign")
-        { // implicit copy assignment into a ring of another size
-            std::unique_ptr<igris::ring<T>> c(new igris::ring<T>(3));
-            c->push((T)9);
-            *c = x;
-            if (c->buffer.data() == x.buffer.data()) o.fail("assignment shares the storage");
-            t = std::move(c);
-            o.tag("copy");
-        }
-        else if (op == "move")
-        { // implicit move constructor; what is left in the moved-from object is printed
-            std::unique_ptr<igris::ring<T>> c(new igris::ring<T>(std::move(x)));
-            ret = S(x.buffer.size()) + " " + S(x.r.size);
-            t = std::move(c);
-            o.tag("move");
-        }
-        else if (op == "moveback")
-        { // the moved-from ring is brought back to life by resize(); the moved-to object is dropped
-            size_t n = strtoul(w[1].c_str(), 0, 10);
-            { igris::ring<T> c(std::move(x)); }
-            x.resize(n); q.clear();
-            if (x.room() != n || x.buffer.size() != n + 1) o.fail("resize of a moved-from ring: room " + S(x.room()));
-            o.tag("move");
-        }
-        else if (op == "write" || op == "read")
-        {
-            if constexpr (is_char)
-            {
-                if (op == "write")
-                {
-                    bytes d = unhex(w[1]);
-                    exact_buf src(d);
-                    size_t acc = std::min(d.size(), (size_t)(size - 1) - q.size());
-                    size_t rc = x.write((const char *)src.p, d.size());
-                    ret = S(rc);
-                    if (rc != acc) o.fail("write returned " + S(rc) + ", room was " + S(acc));
-                    for (size_t i = 0; i < acc; i++) q.push_back((char)d[i]);
-                }
-                else
-                {
-                    size_t n = strtoul(w[1].c_str(), 0, 10);
-                    exact_buf dst(n);
-                    size_t k = std::min(n, q.size());
-                    size_t rc = x.read((char *)dst.p, n);
-                    ret = S(rc) + " " + hex(dst.p, std::min(rc, n));
-                    if (rc != k) o.fail("read returned " + S(rc) + " with " + S(q.size()) + " stored");
-                    for (size_t i = 0; i < k; i++)
-                    {
-                        if (i < rc && (char)dst.p[i] != q.front()) o.fail("read: byte " + S(i) + " altered");
-                        if ((uint8_t)q.front() == 0xff) o.tag("ff");
-                        q.pop_front();
-                    }
-                }
-            }
-            else { o.result = "bad-op"; return; }
-        }
-        else { o.result = "bad-op"; return; }
-        check(o);
-        o.result = ret + " " + state();
-    }
-};
-static TR<int> ti;
-static TR<char> tc;
-
-// =============================================================== cyclic buffer
-struct Cyc
-{
-    std::unique_ptr<igris::cyclic_buffer<int>> c;
-    std::vector<int> log; // every sample pushed since construction / resize
-    size_t cap = 0;
-};
-static Cyc cy;
-
-static void run_cyc(const std::vector<std::string> &w, out &o)
-{
-    auto &x = *cy.c;
-    const std::string &op = w[0];
-    std::string ret = "-";
-    size_t n = cy.log.size();
-    if (op == "push")
-    {
-        int v = (int)strtol(w[1].c_str(), 0, 10);
-        int old = x.push(v);
-        ret = S(old);
-        int exp = n >= cy.cap ? cy.log[n - cy.cap] : 0;
-        if (old != exp) o.fail("push returned " + S(old) + ", the overwritten sample is " + S(exp));
-        cy.log.push_back(v);
-        if (n >= cy.cap) o.tag("overwrite");
-    }
-    else if (op == "at")
-    {
-        int i = (int)strtol(w[1].c_str(), 0, 10);
-        int v = x[i];
-        ret = S(v);
-        {
-            const igris::cyclic_buffer<int> &cx = x; // the const overload has its own body
-            if (cx[i] != v) o.fail("const operator[] disagrees with operator[]");
-        }
-        size_t k = (size_t)emod(i, (int64_t)cy.cap); // slots repeat with period cap (negative i: counter - i < size)
-        int exp = k < n ? cy.log[n - 1 - k] : 0;
-        if (i < 0) o.tag("nth-neg");
-        if (v != exp) o.fail("cb[" + S(i) + "] = " + S(v) + ", the " + S(k) + "-th previous sample is " + S(exp));
-        if (i >= 0 && (size_t)i < std::min(n, cy.cap)) o.tag("nth");
-        if (i >= 0 && n > cy.cap && n % cy.cap < (size_t)i % cy.cap + 1) o.tag("nth-wrap");
-    }
-    else if (op == "resize")
-    {
-        cy.cap = strtoul(w[1].c_str(), 0, 10);
-        x.resize(cy.cap);
-        cy.log.clear();
-    }
-    else { o.result = "bad-op"; return; }
-    if (x.counter.counter < 0 || x.counter.counter >= x.counter.size) o.fail("counter outside [0,size)");
-    if ((size_t)x.counter.size != x.data.size()) o.fail("counter size != data size");
-    if (x.size() != std::min(cy.log.size(), cy.cap))
-        o.fail("size() " + S(x.size()) + " != " + S(std::min(cy.log.size(), cy.cap)));
-    if (cy.cap & (cy.cap - 1)) o.tag("nonpow2");
-    o.result = ret + " " + S(x.counter.counter) + " " + S(x.size());
-}
-
-static ring_counter rcs;
-static void run_rc(const std::vector<std::string> &w, out &o)
-{
-    const std::string &op = w[0];
-    std::string ret = "-";
-    int64_t a = w.size() > 1 ? strtol(w[1].c_str(), 0, 10) : 0;
-    int64_t size = rcs.size, before = rcs.counter;
-    if (op == "inc")
-    {
-        ring_counter_increment(&rcs, (int)a);
-        if (before + a >= 0 && rcs.counter != emod(before + a, size)) o.fail("increment: counter " + S(rcs.counter));
-        if (before + a < 0) o.tag("inc-neg");
-        if (before + a >= 2147483000) o.tag("int-edge");
-    }
-    else if (op == "set")
-    {
-        ring_counter_set(&rcs, (int)a);
-        if (a >= 0 && rcs.counter != emod(a, size)) o.fail("set: counter " + S(rcs.counter));
-    }
-    else if (op == "prev")
-    {
-        int v = ring_counter_prev(&rcs, (int)a);
-        ret = S(v);
-        // contract of ring_counter_prev: counter - i < size (every i >= 0 for a counter in range, and
-        // the negative i > counter - size); beyond it the result is >= size and only compared with the model
-        if (before - a < size && v != emod(before - a, size)) o.fail("prev(" + S(a) + ") = " + S(v));
-        if (a > before) o.tag("prev-wrap");
-        if (a < 0) o.tag(before - a < size ? "prev-neg" : "prev-beyond");
-    }
-    else if (op == "last")
-    {
-        int v = ring_counter_last(&rcs, (int)a);
-        ret = S(v);
-        if (v != emod(before - a, size)) o.fail("last(" + S(a) + ") = " + S(v));
-        if (a > before) o.tag("prev-wrap");
-    }
-    else if (op == "fixpos")
-    {
-        int v = ring_counter_fixup_pos(&rcs, (int)a);
-        ret = S(v);
-        if (v != emod(a, size)) o.fail("fixup_pos(" + S(a) + ") = " + S(v));
-        if (a < 0) o.tag("fix-neg");
-    }
-    else if (op == "get") ret = S(ring_counter_get(&rcs));
-    else { o.result = "bad-op"; return; }
-    if (size & (size - 1)) o.tag("nonpow2");
-    o.result = ret + " " + S(rcs.counter);
-}
 
 // ============================================================ lifetime probes
 // (second translation unit harness/C03_life.cpp)
 void run_lifeprobe(const std::vector<std::string> &w, out &o);
 void run_lifecount(const std::vector<std::string> &w, out &o);
-
-// ================================================================== bytering
-// igris/datastruct/bytering.h: the pointer version of the byte ring
-// (`reset bring <size>`).  Result = "<ret> <head-start> <tail-start> <empty> <full>".
-struct BRing
-{
-    bytering_head r;
-    std::unique_ptr<exact_buf> buf;
-    std::deque<uint8_t> q;
-};
-static std::unique_ptr<BRing> br;
-static std::string bring_state(BRing &b)
-{
-    return S(b.r.head - b.r.start) + " " + S(b.r.tail - b.r.start) + " " + S(bytering_empty(&b.r) ? 1 : 0) + " " +
-           S(bytering_full(&b.r) ? 1 : 0);
-}
-static void bring_check(BRing &b, out &o)
-{
-    bytering_head *r = &b.r;
-    size_t size = b.buf->n;
-    if (r->start != b.buf->p || r->end != b.buf->p + size) o.fail("start/end moved");
-    if (!(r->head >= r->start && r->head < r->end)) o.fail("head outside [start,end)");
-    if (!(r->tail >= r->start && r->tail < r->end)) o.fail("tail outside [start,end)");
-    if ((bytering_empty(r) != 0) != b.q.empty()) o.fail("bytering_empty disagrees with reference (" + S(b.q.size()) + " stored)");
-    if ((bytering_full(r) != 0) != (b.q.size() == size - 1)) o.fail("bytering_full disagrees with reference (" + S(b.q.size()) + " stored of " + S(size - 1) + ")");
-    if (b.q.empty()) o.tag("empty");
-    if (b.q.size() == size - 1) o.tag("full");
-    if (size & (size - 1)) o.tag("nonpow2");
-    if (r->tail < r->head) o.tag("wrapped");
-}
-static void run_bring(const std::vector<std::string> &w, out &o)
-{
-    BRing &b = *br;
-    bytering_head *r = &b.r;
-    const std::string &op = w[0];
-    size_t size = b.buf->n;
-    std::string ret = "-";
-    if (op == "push" || op == "pushn")
-    {
-        uint8_t c = unhex(w[1])[0];
-        bytering_head before = *r;
-        bytes snap = b.buf->vec();
-        bool full = b.q.size() == size - 1;
-        if (op == "pushn")
-        { // unchecked variant: the caller has tested bytering_full itself
-            if (full) { o.result = "bad-op"; return; }
-            bytering_push_nocheck(r, c);
-            b.q.push_back(c);
-        }
-        else
-        {
-            int rc = bytering_push(r, c);
-            ret = S(rc);
-            if (full)
-            {
-                o.tag("reject-full");
-                if (rc != -1) o.fail("push on a full ring returned " + S(rc));
-                if (before.head != r->head || before.tail != r->tail || snap != b.buf->vec())
-                    o.fail("push on a full ring changed the state");
-            }
-            else
-            {
-                if (rc != 0) o.fail("push with " + S(b.q.size()) + " of " + S(size - 1) + " stored returned " + S(rc));
-                b.q.push_back(c);
-            }
-        }
-        if (c == 0xff) o.tag("ff"); else if (c >= 0x80) o.tag("hi-byte");
-    }
-    else if (op == "pop" || op == "popn")
-    {
-        bytering_head before = *r;
-        bytes snap = b.buf->vec();
-        bool empty = b.q.empty();
-        if (op == "popn" && empty) { o.result = "bad-op"; return; }
-        int rc = op == "pop" ? bytering_pop(r) : bytering_pop_nocheck(r);
-        ret = S(rc);
-        if (snap != b.buf->vec()) o.fail("pop wrote to the buffer");
-        if (empty)
-        {
-            o.tag("reject-empty");
-            if (rc != -1) o.fail("pop on an empty ring returned " + S(rc));
-            if (before.head != r->head || before.tail != r->tail) o.fail("pop on an empty ring changed the state");
-        }
-        else
-        {
-            uint8_t exp = b.q.front();
-            b.q.pop_front();
-            if (rc != (int)exp) o.fail("pop returned " + S(rc) + " for stored byte " + S(exp));
-            if (exp == 0xff) o.tag("ff"); else if (exp >= 0x80) o.tag("hi-byte");
-        }
-    }
-    else if (op == "dump") ret = hex(b.buf->p, size);
-    else { o.result = "bad-op"; return; }
-    bring_check(b, o);
-    o.result = ret + " " + bring_state(b);
-}
-
+void run_arr(const std::vector<std::string> &w, out &o);
 
 // ===================================================== round 3: stateless ops
 // ---- `widths`: sizeof / signedness of every index, size and counter type the model embeds
-template <class T> static std::string ty() { return std::string(std::is_signed<T>::value ? "i" : "u") + S(sizeof(T)); }
+using acc::ty;
 static std::string widths_line()
 {
     ring_head *rp = nullptr;
@@ -788,7 +330,7 @@ static std::string widths_line()
     std::string s;
     s += "head " + ty<decltype(ring_head::head)>() + " tail " + ty<decltype(ring_head::tail)>() + " size " + ty<decltype(ring_head::size)>();
     s += " rc.counter " + ty<decltype(ring_counter::counter)>() + " rc.size " + ty<decltype(ring_counter::size)>();
-    s += " cyc._size " + ty<decltype(igris::cyclic_buffer<int>::_size)>() + " arr.m_size " + ty<decltype(igris::unbounded_array<int>::m_size)>();
+    s += " cyc._size " + acc::cyc_size_width<igris::cyclic_buffer<int>>() + " arr.m_size " + acc::arr_size_width<igris::unbounded_array<int>>();
     s += " ring_read " + ty<decltype(ring_read(rp, (const char *)0, (char *)0, 0u))>();
     s += " ring_write " + ty<decltype(ring_write(rp, (char *)0, (const char *)0, 0u))>();
     s += " ring_avail " + ty<decltype(ring_avail(rp))>() + " ring_room " + ty<decltype(ring_room(rp))>();
@@ -798,7 +340,6 @@ static std::string widths_line()
     s += " t.avail " + ty<decltype(tp->avail())>() + " t.room " + ty<decltype(tp->room())>() + " t.size " + ty<decltype(tp->size())>();
     s += " t.index_of " + ty<decltype(tp->index_of((char *)0))>() + " t.tail_index " + ty<decltype(tp->tail_index())>();
     s += " t.distance " + ty<decltype(tp->distance(0, 0))>() + " t.fixup_index " + ty<decltype(tp->fixup_index(0))>();
-    s += " ring_head " + S(sizeof(ring_head)) + " ring_counter " + S(sizeof(ring_counter));
     s += " int_max " + S(INT_MAX) + " uint_max " + S(UINT_MAX);
     return s;
 }
@@ -841,7 +382,7 @@ static std::string premain_compute()
     ring_counter_increment(&k, 9);
     int pv = ring_counter_prev(&k, 5);
     return S(rc1) + " " + S(rc2) + " " + S(g1) + " " + S(wr) + " " + hex((const uint8_t *)dst, rd < 0 ? 0 : (size_t)rd) + " " + st + " " + S(fx) + " " +
-           S(la) + " " + S(tl) + " " + ints_csv(gl) + " " + S(av) + " " + S(old) + " " + S(a0) + " " + S(a2) + " " + S(c.counter.counter) + " " +
+           S(la) + " " + S(tl) + " " + ints_csv(gl) + " " + S(av) + " " + S(old) + " " + S(a0) + " " + S(a2) + " " + S(acc::cyc_counter(c, 4 % 3)) + " " +
            S(k.counter) + " " + S(pv);
 }
 static char PREMAIN[512]; // zero-initialised storage: usable before any constructor has run
@@ -906,8 +447,7 @@ static void run_hist(const std::vector<std::string> &w, out &o)
 static void run_histt(const std::vector<std::string> &w, out &o)
 {
     int n0 = (int)strtol(w[1].c_str(), 0, 10);
-    tc.t.reset(new igris::ring<char>(n0));
-    tc.q.clear();
+    { out none; tc_reset(n0, none, false); }
     size_t j = 0, k = 0;
     std::string res;
     for (const auto &tok : split(w[2], ','))
@@ -923,7 +463,7 @@ static void run_histt(const std::vector<std::string> &w, out &o)
         for (auto &ww : lines)
         {
             out sub;
-            tc.run(ww, sub);
+            tc_run(ww, sub);
             merge(o, sub, k, tok);
             res += (res.empty() ? "" : ";") + sub.result;
         }
@@ -1004,12 +544,18 @@ static void run_op(const std::vector<std::string> &w, const std::string &, out &
 {
     if (w.empty()) { o.result = "bad-op"; return; }
     if (w[0] == "lifeprobe" && w.size() >= 2) { run_lifeprobe(w, o); return; }
-    if (w[0] == "lifecount" && w.size() == 3) { run_lifecount(w, o); return; }
+    if ((w[0] == "lifecount" || w[0] == "lifeviol") && w.size() == 3) { run_lifecount(w, o); return; }
+    if (w[0] == "arr" && w.size() == 3) { run_arr(w, o); return; }
     if (w[0] == "reset" && w.size() >= 2)
     { // one-line cases of round 3: `reset <kind> ...` (a case of its own: crash / replay granularity = the line)
         std::vector<std::string> v(w.begin() + 1, w.end());
         const std::string &k = v[0];
-        if (k == "widths") { o.result = widths_line(); o.tag("consts"); return; }
+        if (k == "widths")
+        { // struct sizes (padding, additional members) are not fixed by the property: reported as tags only
+            o.result = widths_line(); o.tag("consts");
+            o.tag(("sizeof-ring_head=" + S(sizeof(ring_head))).c_str()); o.tag(("sizeof-ring_counter=" + S(sizeof(ring_counter))).c_str());
+            return;
+        }
         if (k == "premain")
         {
             o.result = PREMAIN;
@@ -1033,46 +579,27 @@ static void run_op(const std::vector<std::string> &w, const std::string &, out &
         }
         else if (w.size() == 3 && w[1] == "typed")
         {
-            ti.t.reset(new igris::ring<int>((int)strtol(w[2].c_str(), 0, 10)));
-            ti.q.clear(); kind = 2; ti.check(o);
-            o.result = "- " + ti.state();
+            kind = 2; ti_reset(strtol(w[2].c_str(), 0, 10), o);
         }
         else if (w.size() == 2 && w[1] == "tempty")
         { // default-constructed ring (size 0, no storage): only resize() may follow
-            ti.t.reset(new igris::ring<int>());
-            ti.q.clear(); kind = 2;
-            o.tag("default-ctor");
-            o.result = "- " + ti.state();
+            kind = 2; ti_reset(-1, o);
         }
         else if (w.size() == 3 && w[1] == "tchar")
         {
-            tc.t.reset(new igris::ring<char>((int)strtol(w[2].c_str(), 0, 10)));
-            tc.q.clear(); kind = 3; tc.check(o);
-            o.result = "- " + tc.state();
+            kind = 3; tc_reset(strtol(w[2].c_str(), 0, 10), o, true);
         }
         else if (w.size() == 3 && w[1] == "cyc")
         {
-            cy.cap = strtoul(w[2].c_str(), 0, 10);
-            cy.c.reset(new igris::cyclic_buffer<int>(cy.cap));
-            cy.log.clear(); kind = 4;
-            o.result = "- " + S(cy.c->counter.counter) + " " + S(cy.c->size());
+            kind = 4; reset_cyc(strtoul(w[2].c_str(), 0, 10), o);
         }
         else if (w.size() == 3 && w[1] == "bring")
         {
-            br.reset(new BRing);
-            size_t size = strtoull(w[2].c_str(), 0, 10);
-            br->buf.reset(new exact_buf(size));
-            for (size_t i = 0; i < size; i++) br->buf->p[i] = (uint8_t)(i * 7 + 3);
-            bytering_init(&br->r, br->buf->p, (unsigned)size);
-            kind = 6;
-            bring_check(*br, o);
-            o.result = "- " + bring_state(*br);
+            kind = 6; reset_bring(strtoull(w[2].c_str(), 0, 10), o);
         }
         else if (w.size() == 3 && w[1] == "rc")
         {
-            ring_counter_init(&rcs, (int)strtol(w[2].c_str(), 0, 10));
-            kind = 5;
-            o.result = "- " + S(rcs.counter);
+            kind = 5; reset_rc(strtol(w[2].c_str(), 0, 10), o);
         }
         else o.result = "bad-op";
         return;
@@ -1080,8 +607,8 @@ static void run_op(const std::vector<std::string> &w, const std::string &, out &
     switch (kind)
     {
     case 1: run_cring(w, o); break;
-    case 2: ti.run(w, o); break;
-    case 3: tc.run(w, o); break;
+    case 2: ti_run(w, o); break;
+    case 3: tc_run(w, o); break;
     case 4: run_cyc(w, o); break;
     case 5: run_rc(w, o); break;
     case 6: run_bring(w, o); break;
